@@ -439,12 +439,18 @@ def check_compare_segments(ctx, rep, rule_eq='O-equal-identity', rule_swap='O-sw
 
 
 def check_order_events(ctx, rep, rule='O-consumers'):
-    """order_events swaps neighbours exactly when they are out of sweep order (prev < next in the reversed heap order)"""
+    """order_events must bring result_events into sweep order using the full event order (Ord of Rc<SweepEvent>, reversed):
+    either the bubble sort that swaps neighbours exactly when result_events[i-1] < result_events[i], or a std sort whose
+    comparator is `b.cmp(a)`"""
     b, ps = rep.explore(ctx, 'boolean::connect_edges::order_events', rule)
     if b is None:
         return
     seen = set()
+    sort_calls = []
     for p in ps:
+        for e in p.calls():
+            if re.search(r'slice::<impl \[T\]>::(sort|sort_by|sort_unstable|sort_unstable_by|sort_by_key|sort_by_cached_key)$', e['callee']):
+                sort_calls.append(e)
         swaps = [e for e in p.calls() if e['callee'].endswith('::swap')]
         ltc = None
         for (v, c) in p.conds:
@@ -452,7 +458,6 @@ def check_order_events(ctx, rep, rule='O-consumers'):
             if x[0] == 'op' and x[1] in ('lt', 'gt') and 'index' in show(noepoch(x)):
                 s2, s3 = show(noepoch(x[2])), show(noepoch(x[3]))
                 first_is_prev = 'sub' in s2 and 'sub' not in s3
-                # prev < next  (or next > prev)
                 if (x[1] == 'lt' and first_is_prev) or (x[1] == 'gt' and not first_is_prev and 'sub' in s3):
                     ltc = c[1]
                 else:
@@ -466,7 +471,35 @@ def check_order_events(ctx, rep, rule='O-consumers'):
         rep.ob(rule, 'bubble-swap-iff-out-of-order:%s' % (ltc if not isinstance(ltc, tuple) else 'other'), ok,
                'order_events must swap result_events[i-1], result_events[i] exactly when result_events[i-1] < result_events[i] '
                '(later-before-earlier in the reversed order); test=%s, swaps=%d' % (ltc, len(swaps)), loc=b.loc(b.j['line_lo']), reason='table-row')
-    rep.floor(rule, 'bubble-sort comparison outcomes', len(seen), 2)
+    if sort_calls:
+        e = sort_calls[0]
+        name = short(e['callee']).split('::')[-1]
+        ok = False
+        why = '%s' % name
+        if name in ('sort_by', 'sort_unstable_by') and len(e['args']) == 2:
+            c = strip_upd(e['args'][1])
+            if c[0] == 'agg' and c[1] == 'closure':
+                bc, pc = rep.explore(ctx, c[2], rule)
+                shapes = set()
+                for p in pc:
+                    r = strip_upd(p.ret) if p.ret else ('c', 0)
+                    if r[0] in ('call', 'pcall') and re.search(r'cmp::(Ord|PartialOrd)>?::(cmp|partial_cmp)$|as std::cmp::Ord>::cmp$', r[1]) and len(r[2]) == 2:
+                        a0 = [y for y in sym.walk(r[2][0]) if y[0] == 'param']
+                        a1 = [y for y in sym.walk(r[2][1]) if y[0] == 'param']
+                        shapes.add((tuple(sorted(set(y[1] for y in a0))), tuple(sorted(set(y[1] for y in a1)))))
+                    else:
+                        shapes.add(('other', show(noepoch(r))[:60]))
+                # closure params: (env, a, b) -> a is param 2, b is param 3; descending order is b.cmp(a)
+                ok = shapes == {((3,), (2,))}
+                why = 'sort_by comparator %s' % sorted(map(str, shapes))
+        rep.ob(rule, 'sorted-by-full-event-order', ok,
+               'order_events sorts with %s; result events must be ordered by the complete event order of SweepEvent (x, y, right-before-left, '
+               'angular, operand) in sweep direction, i.e. `sort_by(|a, b| b.cmp(a))`: events at one vertex are walked in that order' % why,
+               loc=b.loc(e['line']), reason='table-row')
+    elif len(seen) < 2:
+        rep.ob(rule, 'result-events-are-ordered', False,
+               'order_events neither bubble-sorts result_events with the event order nor calls a std sort', loc=b.loc(b.j['line_lo']),
+               reason='anchor-missing')
 
 
 # ------------------------------------------------------------ O-segment-oracle (decision list of compare_segments)
